@@ -5,7 +5,7 @@
    locked / guarded Flush and on 1xx codes not being forwarded, and are not artefacts
    of the statement. *)
 From Coq Require Import List ZArith Bool.
-From GZ Require Import C04.Model.
+From GZ Require Import C04.Model C04.Recover.
 Import ListNotations.
 Open Scope Z_scope.
 
@@ -308,4 +308,73 @@ Proof.
   assert (H : filter (fun kv : Z * list Z => false) (bh (tb s)) = []).
   { induction (bh (tb s)); [reflexivity|exact IHh]. }
   rewrite H. destruct (rw s). reflexivity.
+Qed.
+
+(* ------------------------------------------------------------------ *)
+(* seeded C04-10 (class: a lock held across a panic path): timeoutWriter.WriteHeader
+   unlocks tw.mu explicitly AFTER writeHeaderLocked, whose first statement
+   checkWriteHeaderCode panics for a code outside 100..599 — the mutex stays locked.
+   Alone that is invisible (ServeHTTP re-panics without touching tw.mu).  Behind the
+   RecoverHandler of the engine's chain the recovery's WriteHeader(500) blocks on the
+   mutex, and so do the `done` and the ctx.Done() branch: nothing but the Done event
+   can ever happen again. *)
+Record lstate := mkL { l_s : state; l_locked : bool }.
+
+(* which handler action comes next, and does it take tw.mu *)
+Definition next_locks (s : state) : bool :=
+  match hst s, hrest s with
+  | HRun, (AWriteHeader _ | AWrite _ | AFlush) :: _ => true
+  | _, _ => false
+  end.
+
+Definition leak_step (ls : lstate) (e : ev) : option lstate :=
+  let s := l_s ls in
+  match e with
+  | ED k => match rstep true s e with Some (s', _) => Some (mkL s' (l_locked ls)) | None => None end
+  | EH =>
+    if l_locked ls && next_locks s then None      (* blocked in tw.mu.Lock() *)
+    else match rstep true s EH with
+         | Some (s', RPanic (PBadCode _)) => Some (mkL s' true)   (* the panic left WriteHeader with tw.mu held *)
+         | Some (s', _) => Some (mkL s' (l_locked ls))
+         | None => None
+         end
+  | ES BPanic => match rstep true s e with Some (s', _) => Some (mkL s' (l_locked ls)) | None => None end
+  | ES _ =>
+    if l_locked ls then None                      (* both writing branches start with tw.mu.Lock() *)
+    else match rstep true s e with Some (s', _) => Some (mkL s' false) | None => None end
+  end.
+
+Definition leak_run (ls : lstate) (sched : list ev) : lstate :=
+  fold_left (fun x e => match leak_step x e with Some y => y | None => x end) sched ls.
+
+(* the deadline has passed, ServeHTTP is still in its select, and no event of the handler or of
+   the select is enabled, now or ever (only further Done events are, and they change nothing):
+   Props.returns_at_deadline_recover fails, the request hangs *)
+Theorem lock_leak_on_bad_code_refuted :
+  exists script sched k,
+    let ls := leak_run (mkL (init false [] script) false) sched in
+    dk (l_s ls) = Some k /\ sst (l_s ls) = SWait /\
+    leak_step ls (ES BTimeout) = None /\ leak_step ls (ES BDone) = None /\
+    leak_step ls (ES BPanic) = None /\ leak_step ls EH = None /\
+    forall k', leak_step ls (ED k') = Some ls.
+Proof.
+  exists [AWriteHeader 0], [EH; ED KDeadline], KDeadline.
+  vm_compute. repeat split.
+Qed.
+
+(* the same schedule on today's model: the timeout reply, at the deadline *)
+Example lock_released_today :
+  let s := rrun true (init false [] [AWriteHeader 0]) [EH; ED KDeadline; ES BTimeout] in
+  sst s = STimeoutRet KDeadline /\ rw s = timeout_resp false [] KDeadline.
+Proof. vm_compute. split; reflexivity. Qed.
+
+(* without an invalid code the leaking variant is the real thing *)
+Theorem lock_leak_same_without_bad_code : forall s e s' r,
+  rstep true s e = Some (s', r) -> (forall c, r <> RPanic (PBadCode c)) ->
+  leak_step (mkL s false) e = Some (mkL s' false).
+Proof.
+  intros s e s' r H Hr. destruct e as [|k|b]; cbn [leak_step l_s l_locked andb].
+  - rewrite H. destruct r as [| | |p|]; try reflexivity. destruct p; [reflexivity|]. exfalso. eapply Hr; reflexivity.
+  - rewrite H. reflexivity.
+  - destruct b; rewrite H; reflexivity.
 Qed.
